@@ -2,9 +2,8 @@
 Lane `memts` (property C10): the buffer protocol of `TransformStream::write` against the real
 `TransformStream` in tag-scanning mode (no token captured).
   case = `M prealloc chunkhex,chunkhex,…`   chunks over the alphabet {`<`, `>`, `a`} (`-` = empty chunk)
-  observation = `init=ok:<usage> <res>:<usage>:<retained>:<bytes out so far> …`, stopping at the first `err`;
-                `PANIC-prealloc` when the constructor panics.
-The model side runs `TS.new (debug := true)` / `TS.run … scanConsumed`, i.e. `TS.write` — the functions the
+  observation = `init=ok:<usage> <res>:<usage>:<retained>:<bytes out so far> …`, stopping at the first `err`.
+The model side runs `TS.new` / `TS.run … scanConsumed`, i.e. `TS.write` — the functions the
 C10 write theorems are about.
 -/
 import LolHtml.Model.Memory
@@ -22,8 +21,8 @@ def run (line : String) : String :=
   | [m, p, cs] =>
     match m.toNat?, p.toNat?, (cs.splitOn ",").mapM ofHex with
     | some M, some prealloc, some chunks =>
-      match TS.new true M prealloc with
-      | .panic _ => "PANIC-prealloc"
+      match TS.new M prealloc with
+      | .panic _ => "PANIC-new"
       | .err _ _ => "init=err"
       | .ok t0 =>
         " ".intercalate (s!"init=ok:{t0.lim.usage}" :: (t0.run scanConsumed chunks 0).map showStep)
